@@ -12,6 +12,7 @@ import sys
 
 VERIF = os.path.dirname(os.path.dirname(os.path.abspath(__file__)))
 REPO = "/repo"
+SUBDIR = "mutants" if "--mutants" in sys.argv else "seeded"
 
 
 def sh(cmd, **kw):
@@ -21,7 +22,7 @@ def sh(cmd, **kw):
 def main():
     args = [a for a in sys.argv[1:] if not a.startswith("--")]
     all_checks = "--all-checks" in sys.argv
-    seeds = sorted(d for d in os.listdir(os.path.join(VERIF, "seeded")) if os.path.isdir(os.path.join(VERIF, "seeded", d)))
+    seeds = sorted(d for d in os.listdir(os.path.join(VERIF, SUBDIR)) if os.path.isdir(os.path.join(VERIF, "seeded", d)))
     if args:
         seeds = [s for s in seeds if s in args]
     dirty = sh("git -C %s status --porcelain --untracked-files=no" % REPO).stdout.strip()
